@@ -17,6 +17,7 @@ const (
 	FChunked
 	FChunkedTrailer
 	FCLExpect
+	FChunkedExpect
 )
 
 // Chunk partitions.
@@ -46,6 +47,7 @@ const (
 	XFold2
 	XEmpty
 	XMany
+	XMany2 // 100 long headers (about 11 KiB: three buffer nodes)
 )
 
 var NearMissNames = []string{"", "Content-Lengthx", "Xontent-Length", "Content_Length", "Transfer-Encodin", "Ransfer-Encoding", "Content\rLength", "Transfer\rEncoding", "Content-Length-", "Transfer_Encoding"}
@@ -179,8 +181,12 @@ func Build(s Spec) ([]byte, Expect) {
 	case XEmpty:
 		w.WriteString("X-Empty:\r\n")
 		ex.Custom = append(ex.Custom, httpref.Header{Name: "X-Empty", Value: ""})
-	case XMany:
-		for i := 0; i < 40; i++ {
+	case XMany, XMany2:
+		cnt := 40
+		if s.Extra == XMany2 {
+			cnt = 100
+		}
+		for i := 0; i < cnt; i++ {
 			v := strings.Repeat(fmt.Sprintf("v%02d.", i), 24)
 			fmt.Fprintf(&w, "X-M%02d: %s\r\n", i, v)
 			ex.Custom = append(ex.Custom, httpref.Header{Name: fmt.Sprintf("X-M%02d", i), Value: v})
@@ -205,7 +211,11 @@ func Build(s Spec) ([]byte, Expect) {
 		}
 		w.WriteString("\r\n")
 		w.Write(body)
-	case FChunked, FChunkedTrailer:
+	case FChunked, FChunkedTrailer, FChunkedExpect:
+		if s.Framing == FChunkedExpect {
+			w.WriteString("Expect: 100-continue\r\n")
+			ex.Expect100 = true
+		}
 		if s.Framing == FChunkedTrailer {
 			w.WriteString("Trailer: X-Tr\r\n")
 		}
